@@ -3,7 +3,7 @@ import io, json, os
 from urllib.parse import quote
 from . import tlc, pipeline_common as pc, gen as G, enc as E, sigcases as S
 
-SPARSE = [2, 10, 11, 25, 100, 101]
+SPARSE = [2, 10, 11, 25, 100, 101, 102, 103, 200, 201, 1000, 1001]
 
 
 def export(ctx):
